@@ -127,6 +127,27 @@ def build_file(rng, fault, tag):
     return text, off
 
 
+NOT_IN_BLOCK = {"duplicate-label", "reserved-name", "extern-local", "second-link", "empty-assignment", "odd-word", "include-missing", "insert-missing",
+                "unterminated-string", "lonely-quote", "comma-after-name"}
+
+
+def build_block_file(rng, fault):
+    """the fault as the first (or a later) statement of a '.repeat' block, blank lines / comments / tabs between the
+    brace and the statement"""
+    kind, fline, culprit, _ident = fault
+    head, _ = build_file(rng, None, 1)
+    opener = rng.choice([".repeat 1 {", ".repeat 1 {  ", "\t.repeat 1\t{\t; c", ".repeat 1\n{", ".repeat 2 - 1 {"])
+    gap = rng.choice(["\n", "\n\n", "\n ; a comment\n", "\n\t\n\t", " ", "\t", "\n    "])
+    if ";" in opener and "\n" not in gap:
+        gap = "\n" + gap
+    before_stmt = rng.choice(["", "", "nop\n    ", "inc r1\n\t"])
+    indent = rng.choice(["", "\t", "    "])
+    text_before = head + ".even\n" + opener + gap + before_stmt + indent
+    off = len(text_before) + fline.index(culprit)
+    text = text_before + fline + "\n}\nnop\n"
+    return text, off
+
+
 def run(ctx):
     impl.load()
     rng = ctx.rng("c17")
@@ -158,17 +179,19 @@ def run(ctx):
             ctx.violation("line:column is not the scan position (tab = 4 columns)", {"text": text, "pos": pos}, expected="f.mac:%d:%d" % (sl, sc), observed=got)
 
     # ---------------------------------------------------------------- (b) planted faults
-    roles = ["main", "linked", "included"]
+    roles = ["main", "linked", "included", "block"]
     per_kind = 12 if ctx.thorough else 3
     for fault in FAULTS:
         for role in roles:
             for rep in range(per_kind):
                 d = impl.scratch_dir()
                 try:
-                    ftext, off = build_file(rng, fault, 1)
+                    if role == "block" and fault[0] in NOT_IN_BLOCK:
+                        continue
+                    ftext, off = build_file(rng, fault, 1) if role != "block" else build_block_file(rng, fault)
                     other, _ = build_file(rng, None, 2)
                     main_path = os.path.join(d, "main.mac")
-                    if role == "main":
+                    if role in ("main", "block"):
                         files = [(main_path, ftext)]
                         fault_file = main_path
                     elif role == "linked":
